@@ -72,8 +72,11 @@ def comment_failures(r, src):
         fmt = r.get("fmt")
         if fmt is not None:
             a1, a2 = _import_anchors(src), _import_anchors(fmt)
-            moved = _moved(before, after)
-            if moved and all(c in a1 and a1.get(c) == a2.get(c) for c in moved):
+            moved = []
+            for k in ("c2", "c3"):
+                moved += _moved([c for c in before if kind(c) == k], [c for c in after if kind(c) == k])
+            c4_same = [c for c in before if kind(c) == "c4"] == [c for c in after if kind(c) == "c4"]
+            if moved and c4_same and all(c in a1 and a1.get(c) == a2.get(c) for c in moved):
                 return [], {"comments-travel-with-sorted-imports": 1}
         return out, norm
     # only the interleaving of different kinds changed
@@ -135,8 +138,10 @@ def _import_anchors(text):
     i = 0
     while i < len(toks):
         k, t, nl = toks[i]
-        if k in ("c2", "c3", "c4"):
-            pending.append((("//" if k == "c2" else "///" if k == "c3" else "////") and t.rstrip()))
+        if k == "c4":
+            pass  # module comments are hoisted, they never belong to an import
+        elif k in ("c2", "c3"):
+            pending.append(t.rstrip())
         else:
             if k == "kw" and t == "use":
                 j = i + 1
